@@ -303,12 +303,15 @@ SPECS["C18"] = dict(
 C06_API = "(*git.arvados.org/arvados.git/sdk/go/arvados.Client).RequestAndDecodeContext=gosymAPI"
 SPECS["C06"] = dict(
     level="model_checking",
-    outside="more than 3 (quick) / 4 (thorough) collections and more than 1 (quick) / 2 (thorough) concurrent changes per scan (the statement speaks of 0-200 collections); real JSON decoding and HTTP; database isolation anomalies; Balancer.Run / GetCurrentState error plumbing (not yet encoded, see DESIGN)",
+    outside="more than 3 (quick) / 4 (thorough) collections and more than 1 (quick) / 2 (thorough) concurrent changes per scan (the statement speaks of 0-200 collections); real JSON decoding and HTTP; database isolation anomalies; in the sweep run every request of Balancer.Run is a stub with one injected failure, goroutine schedules are explored at message granularity (which goroutine delivers to / takes from a channel first), not at instruction granularity",
     assumptions=["the API server is a model collections table (filters on modified_at/uuid with = >= > <= !=, order (modified_at, uuid), limit, exact count) substituted for (*arvados.Client).RequestAndDecodeContext",
                  "between two requests a collection may be modified (fresh maximal timestamp), deleted or added", "index bodies are concrete; every truncation point, three read chunkings and a mid-stream read error are enumerated"],
     runs=[
         dict(name="paging", pkg="services/keep-balance", harness=["keepbalance/c06_paging.go", "keepbalance/util.go"], entry="GosymH_C06_paging", stubs=[C06_API], replay="engine",
              params=dict(quick=dict(collections=3, events=1, failures=1), thorough=dict(collections=4, events=2, failures=0)), witnesses=["scan-ok", "scan-ok-with-concurrent-change", "api-failure"]),
+        dict(name="sweep", pkg="services/keep-balance", harness=["keepbalance/c06_sweep.go", "keepbalance/c05_balance.go", "keepbalance/util.go"], entry="GosymH_C06_sweep", replay="engine", sched="msgorder",
+             stubs=['(*git.arvados.org/arvados.git/services/keep-balance.Balancer).DiscoverKeepServices=gosymDiscover', '(*git.arvados.org/arvados.git/services/keep-balance.KeepService).discoverMounts=gosymDiscoverMounts', '(*git.arvados.org/arvados.git/services/keep-balance.Balancer).CheckSanityEarly=gosymSanityEarly', '(*git.arvados.org/arvados.git/services/keep-balance.Balancer).ClearTrashLists=gosymClearTrash', '(*git.arvados.org/arvados.git/sdk/go/arvados.Client).DiscoveryDocument=gosymDiscoveryDoc', '(*git.arvados.org/arvados.git/sdk/go/arvados.KeepService).IndexMount=gosymIndexMount', 'git.arvados.org/arvados.git/services/keep-balance.EachCollection=gosymEachCollection', '(*git.arvados.org/arvados.git/services/keep-balance.Balancer).CommitPulls=gosymCommitPullsStub', '(*git.arvados.org/arvados.git/services/keep-balance.Balancer).CommitTrash=gosymCommitTrashStub', '(*git.arvados.org/arvados.git/services/keep-balance.Balancer).time=gosymTimeStub', '(*git.arvados.org/arvados.git/services/keep-balance.metrics).UpdateStats=gosymUpdateStats'],
+             params=dict(quick=dict(collections=2), thorough=dict(collections=3)), witnesses=["committed", "pull-failure", "failure", "empty-scan-refused"]),
         dict(name="index", pkg="sdk/go/arvados", harness=["arvados/c06_index.go"], entry="GosymH_C06_index", stubs=["(*git.arvados.org/arvados.git/sdk/go/arvados.Client).Do=gosymDo"], replay="engine",
              witnesses=["accepted", "rejected"]),
         dict(name="getindex", pkg="sdk/go/keepclient", harness=["keepclient/c06_getindex.go", "keepclient/c03_get.go"], entry="GosymH_C06_getindex", witnesses=["accepted", "rejected"]),
